@@ -16,32 +16,10 @@ open Sozu KMap
 def BucketsSorted (s : St) : Prop :=
   ∀ t l, look s t = some (.backends l) → SortedB l
 
-/-- the three command shapes whose validation runs after a write in the code:
-    listener patches carrying an invalid `alpn_protocols` / `sozu_id_header`,
-    `ReplaceCertificate` with an unparsable new certificate, `AddCertificate` whose PEM
-    parses but whose names cannot be resolved. -/
-def LateValidation (env : Env) : Cmd → Prop
-  | .updHttpL p => ∃ h, p.sid = some h ∧ sidValid h = false
-  | .updHttpsL p => (∃ vs, p.alpn = some vs ∧ alpnValid vs = false) ∨ (∃ h, p.sid = some h ∧ sidValid h = false)
-  | .replaceCert _ _ c => env.fp c.pem = none
-  | .addCert _ c => (env.fp c.pem).isSome ∧ resolveNames env c = none
-  | _ => False
-
-theorem patchTail_err (p : HttpPatch) (l : HttpL) (h : (patchTail p l).2 = false) :
-    ∃ hd, p.sid = some hd ∧ sidValid hd = false := by
-  unfold patchTail at h
-  cases hs : p.sid with
-  | none => simp [hs] at h
-  | some hd =>
-    simp only [hs] at h
-    by_cases hv : sidValid hd = true
-    · simp [hv] at h
-    · exact ⟨hd, rfl, by simpa using hv⟩
-
-/-- on every verb outside `LateValidation`, an `Err` leaves the addressed entry as it was -/
+/-- an `Err` leaves the addressed entry as it was -/
 theorem loc_err_noop (env : Env) (c : Cmd) (v : Option Val)
     (hsorted : ∀ l, v = some (.backends l) → SortedB l)
-    (hz : ¬ LateValidation env c) (herr : (loc env c v).2 = false) : (loc env c v).1 = v := by
+    (herr : (loc env c v).2 = false) : (loc env c v).1 = v := by
   cases c with
   | addCluster cl =>
     simp only [loc] at herr ⊢
@@ -91,7 +69,7 @@ theorem loc_err_noop (env : Env) (c : Cmd) (v : Option Val)
     | some fp =>
       simp only [hfp] at herr ⊢
       cases hr : resolveNames env cert with
-      | none => exact absurd ⟨by simp [hfp], hr⟩ hz
+      | none => simp
       | some c' =>
         simp only [hr] at herr
         split at herr <;> simp at herr
@@ -103,17 +81,22 @@ theorem loc_err_noop (env : Env) (c : Cmd) (v : Option Val)
       | none => simp [loc] at herr
       | some x => cases x <;> simp [loc] at herr
   | replaceCert a old cert =>
-    cases old with
-    | none => rfl
-    | some old =>
-      cases v with
+    simp only [loc] at herr ⊢
+    cases hr : resolveNames env cert with
+    | none => simp
+    | some c' =>
+      simp only [hr] at herr ⊢
+      cases old with
       | none => rfl
-      | some x =>
-        cases x <;> simp only [loc] at herr ⊢
-        next m =>
-          cases hfp : env.fp cert.pem with
-          | none => exact absurd hfp hz
-          | some nfp => simp [hfp] at herr
+      | some old =>
+        cases v with
+        | none => rfl
+        | some x =>
+          cases x <;> simp only at herr ⊢
+          next m =>
+            cases hfp : env.fp cert.pem with
+            | none => simp
+            | some nfp => simp [hfp] at herr
   | addTcpF f =>
     simp only [loc, addTcpFront] at herr ⊢
     split at herr
@@ -159,33 +142,22 @@ theorem loc_err_noop (env : Env) (c : Cmd) (v : Option Val)
         rw [filter_eq_self_of_length _ _ hl, sortB_of_sorted l (hsorted l rfl)]
   | updHttpL p =>
     simp only [loc] at herr ⊢
-    by_cases hk : knobsValid Consts.stateShrinkRatioMinHttp p.knobs = true
-    · simp only [hk] at herr ⊢
+    split at herr
+    · next h => simp [h]
+    · next h =>
+      simp only [h]
       cases v with
       | none => rfl
-      | some x =>
-        cases x <;> simp at herr ⊢
-        next l => exact absurd (patchTail_err p _ herr) hz
-    · simp [hk]
+      | some x => cases x <;> simp at herr ⊢
   | updHttpsL p =>
     simp only [loc] at herr ⊢
-    by_cases hk : knobsValid Consts.stateShrinkRatioMinHttps p.knobs = true
-    · simp only [hk] at herr ⊢
+    split at herr
+    · next h => simp [h]
+    · next h =>
+      simp only [h]
       cases v with
       | none => rfl
-      | some x =>
-        cases x <;> simp at herr ⊢
-        next l =>
-          exfalso; apply hz
-          unfold applyHttpsPatch at herr
-          cases ha : p.alpn with
-          | none => simp only [ha] at herr; exact Or.inr (patchTail_err p _ herr)
-          | some vs =>
-            simp only [ha] at herr
-            by_cases hv : alpnValid vs = true
-            · simp only [hv, if_true] at herr; exact Or.inr (patchTail_err p _ herr)
-            · exact Or.inl ⟨vs, ha, by simpa using hv⟩
-    · simp [hk]
+      | some x => cases x <;> simp at herr ⊢
   | updTcpL p =>
     cases v with
     | none => rfl
@@ -204,18 +176,20 @@ theorem C07_ok_touches_only_named (env : Env) (s : St) (c : Cmd) (t : Target)
     (h : tgt c ≠ some t) : look (dispatch env s c).1 t = look s t := by
   rw [look_dispatch]; simp [h]
 
-/-- **C07 (error is a no-op), proved part.** For every state whose backend lists are sorted
-    and every command outside the three late-validation shapes, an `Err` from `dispatch`
-    leaves every entry of every map exactly as it was. -/
-theorem C07_error_is_noop_partial (env : Env) (s : St) (c : Cmd)
-    (hs : BucketsSorted s) (hz : ¬ LateValidation env c)
-    (herr : (dispatch env s c).2 = false) : Same (dispatch env s c).1 s := by
+/-- **C07 (error is a no-op).** For every state whose backend lists are sorted and every
+    command, an `Err` from `dispatch` leaves every entry of every map exactly as it was — no
+    partially applied field, no orphan bucket. (The sortedness hypothesis is needed because
+    `remove_backend` calls `sort()` on the cluster's list before it reports `NoChange`: on an
+    unsorted list the rejected command would have reordered it. `add_backend` keeps every list
+    sorted; the harness checks it on every real state.) -/
+theorem C07_error_is_noop (env : Env) (s : St) (c : Cmd)
+    (hs : BucketsSorted s) (herr : (dispatch env s c).2 = false) : Same (dispatch env s c).1 s := by
   intro t
   rw [look_dispatch]
   by_cases ht : tgt c = some t
   · simp only [ht, if_true]
     rw [dispatch_result, ht] at herr
-    exact loc_err_noop env c _ (fun l hl => hs t l hl) hz herr
+    exact loc_err_noop env c _ (fun l hl => hs t l hl) herr
   · simp [ht]
 
 /-- a concrete environment for the examples: PEMs 0–8 are certificates named `[pem]`,
@@ -239,47 +213,37 @@ def certEx (pem : Nat) : Cert := { pem, names := [], rest := 0 }
 theorem bucketsSorted_of_none (s : St) (h : ∀ t l, look s t ≠ some (.backends l)) : BucketsSorted s :=
   fun t l hl => absurd hl (h t l)
 
-/-- **C07 counterexample (F5).** `UpdateHttpsListener {front_timeout: 5, alpn_protocols: ["bogus"]}`
-    on an existing listener returns `Err` and has changed `front_timeout`. -/
-theorem C07_error_is_noop_counterexample_patch :
-    ∃ (s : St) (c : Cmd), (dispatch envEx s c).2 = false ∧ ¬ Same (dispatch envEx s c).1 s := by
-  refine ⟨put St.init (.httpsL 7) (some (.hl httpsEx)),
-          .updHttpsL { patchEx with alpn := some [5] }, by decide, ?_⟩
-  intro h
-  exact absurd (h (.httpsL 7)) (by decide)
+/-- regression (F5, fixed by 7c0648d): `UpdateHttpsListener {front_timeout: 5, alpn_protocols:
+    ["bogus"]}` is rejected and the listener is untouched; same for an invalid `sozu_id_header`. -/
+example :
+    let s := put St.init (.httpsL 7) (some (.hl httpsEx))
+    let c := Cmd.updHttpsL { patchEx with alpn := some [5] }
+    (dispatch envEx s c).2 = false ∧ look (dispatch envEx s c).1 (.httpsL 7) = look s (.httpsL 7) := by decide
 
-/-- the same with an invalid `sozu_id_header` (empty string), http listener patch -/
-theorem C07_error_is_noop_counterexample_sid :
-    ∃ (s : St) (c : Cmd), (dispatch envEx s c).2 = false ∧ ¬ Same (dispatch envEx s c).1 s := by
-  refine ⟨put St.init (.httpL 7) (some (.hl httpsEx)),
-          .updHttpL { patchEx with sid := some [] }, by decide, ?_⟩
-  intro h
-  exact absurd (h (.httpL 7)) (by decide)
+example :
+    let s := put St.init (.httpL 7) (some (.hl httpsEx))
+    let c := Cmd.updHttpL { patchEx with sid := some [] }
+    (dispatch envEx s c).2 = false ∧ look (dispatch envEx s c).1 (.httpL 7) = look s (.httpL 7) := by decide
 
-/-- **C07 counterexample (F6).** `ReplaceCertificate` with an unparsable new certificate returns
-    `Err` after the old certificate has been removed. -/
-theorem C07_error_is_noop_counterexample_replace :
-    ∃ (s : St) (c : Cmd), (dispatch envEx s c).2 = false ∧ ¬ Same (dispatch envEx s c).1 s := by
-  refine ⟨(dispatch envEx St.init (.addCert 7 (certEx 0))).1, .replaceCert 7 (some 0) (certEx 11), by decide, ?_⟩
-  intro h
-  exact absurd (h (.certs 7)) (by decide)
+/-- regression (F6, fixed by b8a38d3): `ReplaceCertificate` with an unparsable new certificate is
+    rejected and the old certificate is still there. -/
+example :
+    let s := (dispatch envEx St.init (.addCert 7 (certEx 0))).1
+    let c := Cmd.replaceCert 7 (some 0) (certEx 11)
+    (dispatch envEx s c).2 = false ∧ look (dispatch envEx s c).1 (.certs 7) = look s (.certs 7) := by decide
 
-/-- **C07 counterexample (F7).** `AddCertificate` whose PEM parses but is not a certificate returns
-    `Err` and leaves an empty bucket for the address. -/
-theorem C07_error_is_noop_counterexample_orphan :
-    ∃ (s : St) (c : Cmd), (dispatch envEx s c).2 = false ∧ ¬ Same (dispatch envEx s c).1 s := by
-  refine ⟨St.init, .addCert 7 (certEx 9), by decide, ?_⟩
-  intro h
-  exact absurd (h (.certs 7)) (by decide)
+/-- regression (F7, fixed by 25f3a45): `AddCertificate` with a PEM block that is not a certificate
+    is rejected and no bucket is created. -/
+example :
+    (dispatch envEx St.init (.addCert 7 (certEx 9))).2 = false ∧
+    look (dispatch envEx St.init (.addCert 7 (certEx 9))).1 (.certs 7) = none := by decide
 
-/-- non-vacuity of `C07_error_is_noop_partial`: a patch with a flood knob below its minimum among
-    valid fields on an existing listener is rejected, is outside `LateValidation`, and is a no-op. -/
+/-- non-vacuity of `C07_error_is_noop`: a patch with a flood knob below its minimum among valid
+    fields on an existing listener is rejected and is a no-op. -/
 example :
     let s := put St.init (.httpsL 7) (some (.hl httpsEx))
     let c := Cmd.updHttpsL { patchEx with knobs := some 0 :: List.replicate 17 none }
-    (dispatch envEx s c).2 = false ∧ ¬ LateValidation envEx c ∧ look (dispatch envEx s c).1 (.httpsL 7) = look s (.httpsL 7) := by
-  refine ⟨by decide, ?_, by decide⟩
-  simp [LateValidation, patchEx]
+    (dispatch envEx s c).2 = false ∧ look (dispatch envEx s c).1 (.httpsL 7) = look s (.httpsL 7) := by decide
 
 /-! ## C06 — applying the computed difference reaches the target -/
 
@@ -438,7 +402,7 @@ example :
 
 /-- **C05 (replay round trip, proved part).** For every well-formed state — one binding per key,
     every value filed under its own key in the shape the verbs leave it, certificate names
-    resolved — replaying `generate_requests` on an empty state is accepted command by command
+    resolved (an invariant since `ReplaceCertificate` resolves them too) — replaying `generate_requests` on an empty state is accepted command by command
     and rebuilds the same configuration (up to empty buckets). -/
 theorem C05_replay_roundtrip_partial (env : Env) (s : St) (hs : WF env s) :
     Equiv (run env St.init (generateRequests s)) s ∧
@@ -491,20 +455,13 @@ example : WF envEx
   · simp [EntryOK, canon, addrMod, envEx, resolveNames]
   · simp [EntryOK, SortedB, canon, addrMod]
 
-/-- **C05 counterexample (replaced certificate).** `ReplaceCertificate` stores the new certificate
-    without resolving its names, `AddCertificate` (used by the replay) resolves them: the replayed
-    configuration differs from the saved one. -/
-theorem C05_replay_roundtrip_counterexample_names :
+/-- regression (fixed by 53f0369): a certificate stored by `ReplaceCertificate` has its names
+    resolved, so the saved state replays to the same configuration; a PEM block that is not a
+    certificate is no longer accepted as a replacement. -/
+example :
     let s := run envEx St.init [.addCert 7 (certEx 0), .replaceCert 7 (some 0) (certEx 1)]
-    ¬ Equiv (run envEx St.init (generateRequests s)) s := by
-  intro s h
-  exact absurd (h (.certs 7)) (by decide)
-
-/-- **C05 counterexample (replay fails).** The replacement is accepted for any PEM block; when it is
-    not an X.509 certificate the generated `AddCertificate` is rejected on replay. -/
-theorem C05_replay_roundtrip_counterexample_rejected :
-    let s := run envEx St.init [.addCert 7 (certEx 0), .replaceCert 7 (some 0) (certEx 9)]
-    allOk envEx St.init (generateRequests s) = false := by
-  decide
+    look (run envEx St.init (generateRequests s)) (.certs 7) = look s (.certs 7) ∧
+    allOk envEx St.init (generateRequests s) = true ∧
+    (dispatch envEx s (.replaceCert 7 (some 1) (certEx 9))).2 = false := by decide
 
 end Sozu.State
